@@ -397,7 +397,7 @@ impl State {
         let empty = LockSt::default();
         let l = self.locks.get(&p.req.id).unwrap_or(&empty);
         match p.req.mode {
-            LockMode::Read => l.writer.is_none(),
+            LockMode::Read => l.writer.is_none() || (p.req.recursive && !l.readers.is_empty() && !l.writer_granted),
             LockMode::Write => {
                 if p.has_bit {
                     debug_assert!(l.writer == Some(tid));
@@ -587,7 +587,7 @@ impl State {
                 self.counters.try_timed += 1;
                 self.op_try_timed += 1;
             }
-            if req.mode == LockMode::Read && holds_r && !holds_w && matches!(req.kind, LockKind::Blocking) {
+            if req.mode == LockMode::Read && holds_r && !holds_w && !req.recursive && matches!(req.kind, LockKind::Blocking) {
                 // re-entrant blocking read: fine on an idle lock, a certain deadlock once a writer queues up
                 self.counters.reentrant_reads += 1;
                 let first_site = self.threads[tid].held.iter().find(|h| h.lock == req.id).map(|h| h.site).unwrap();
@@ -605,8 +605,10 @@ impl State {
                 }
             }
         }
+        let writer_granted = self.locks.get(&req.id).map(|l| l.writer_granted).unwrap_or(false);
         let grantable = match req.mode {
-            LockMode::Read => writer.is_none(),
+            // a recursive read may overtake a writer that is still waiting for the readers to leave
+            LockMode::Read => writer.is_none() || (req.recursive && n_readers > 0 && !writer_granted),
             LockMode::Write => match req.kind {
                 // try_write only succeeds on a completely idle lock
                 _ => writer.is_none() && n_readers == 0,
@@ -1135,7 +1137,7 @@ pub mod probe {
         }
 
         pub fn request(&mut self, tid: usize, lock: u64, mode: LockMode, kind: LockKind) -> Ans {
-            let req = LockRequest { id: lock, class: LockClass::Other, mode, kind, site: std::panic::Location::caller() };
+            let req = LockRequest { id: lock, class: LockClass::Other, mode, kind, recursive: false, site: std::panic::Location::caller() };
             match self.st.attempt(tid, req, None) {
                 Some(Outcome::Granted) => Ans::Granted,
                 Some(_) => Ans::Failed,
